@@ -218,13 +218,15 @@ CNAMES = ["x", "y", "z", "k", "n", "t", "st__c", "a b", "w", "v"]
 
 
 def gen_dataset(rng, i, shape=None):
+    if shape is None and rng.random() < 0.06:
+        shape = ["region", rng.randint(1, 4)]
     shape = shape or rng.choice(SHAPES)
     ncomp = rng.randint(1, 5)
     names = rng.sample(CNAMES, ncomp)
     comps = []
     for j, nm in enumerate(names):
         kind = rng.choice(["f", "f", "f", "i", "c", "C", "t", "u", "d", "p", "l"])
-        if len(shape) > 1 and kind in ("c", "C") and rng.random() < 0.5:
+        if shape[0] != "region" and len(shape) > 1 and kind in ("c", "C") and rng.random() < 0.5:
             kind = "f"
         comps.append([kind, nm, rng.randint(0, 99)])
     coords = rng.choice([None, None, "id", ["aff", rng.randint(0, 7)]])
@@ -238,6 +240,12 @@ def ds_info(desc):
     nums, cats, dts = [], [], []
     first = True
     have_num = False
+    if shape and shape[0] == "region":
+        shape = [shape[1]]
+        first = False
+        have_num = True
+        nums = ["Center [x] for boundary", "Center [y] for boundary"]
+        comps = [[k if k not in ("d", "p", "l") else "f", nm, sd] for k, nm, sd in comps]
     for kind, nm, seed in comps:
         k = kind
         if first and k in ("d", "p", "l"):
@@ -637,6 +645,7 @@ D1 = ["d1", [6], [["f", "a", 11], ["f", "b", 12], ["i", "n", 14], ["u", "uu", 5]
 D2 = ["d2", [2, 2, 3], [["f", "x", 21], ["f", "y", 22], ["f", "z", 23], ["i", "n", 24]], ["aff", 1], None, 3]
 D3 = ["d3", [2, 3], [["f", "x", 31], ["f", "y", 33], ["c", "k", 32]], ["aff", 2], 4, 4]
 D4 = ["d4", [2, 3], [["f", "x", 41], ["i", "n", 42]], None, 5, 5]
+D5 = ["regions", ["region", 3], [["f", "v", 51], ["c", "k", 52]], None, 6, 1]
 RECT = ["rect", -3, 3, -3, 3, 0]
 
 
@@ -977,6 +986,10 @@ RECIPES = {
     "glue.core.coordinates.IdentityCoordinates": (_st(["base"]), lambda dc: dc[1].coords),
     "glue.core.coordinates.AffineCoordinates": (_st(["base"]), lambda dc: dc[2].coords),
     "glue.core.data.Data": (_st(["base"]), lambda dc: dc[0]),
+    "glue.core.data_region.RegionData": ({"data": BASE5 + [D5], "links": [["same", 5, "Center [x] for boundary", 0, "x"]],
+                                          "groups": [[["range", 5, "v", -2, 3], None, 3]], "full_access": True}, lambda dc: dc[5]),
+    CMP + "ExtendedComponent": ({"data": BASE5 + [D5], "links": [], "groups": [[["range", 5, "Center [y] for boundary", 0, 9], None, 3]],
+                                 "full_access": True}, lambda dc: dc[5].get_component(dc[5].id["boundary"])),
     "glue.core.data_collection.DataCollection": (_st(["base"]), lambda dc: dc),
     "glue.core.subset.Subset": None,   # ungrouped subsets are coerced into groups: see noRecipeAllowed? no: recipe below
     "glue.core.subset_group.GroupedSubset": (_st(["range", 0, "x", -2, 3]), lambda dc: dc[0].subsets[0]),
